@@ -298,9 +298,20 @@ PROPS["C11"] = {
 }
 
 C02_QUICK = ["c02_p_clr", "c02_p_add", "c02_p_sub", "c02_p_mul", "c02_p_xor", "c02_p_neg", "c02_p_lsl", "c02_p_rlc", "c02_p_rrc", "c02_p_pop", "c02_p_ret", "c02_p_reti",
-             "c02_p_stop", "c02_p_di", "c02_p_jmp", "c02_p_jr", "c02_p_jzc", "c02_p_call", "c02_p_dec", "c02_p_dec_inc", "c02_p_dec_const", "c02_p_dec_abs",
-             "c02_d_org", "c02_d_byte", "c02_d_stacksize", "c02_d_programsize", "c02_e_mov_0_0", "c02_e_mov_3_5", "c02_e_mov_0_7", "c02_e_ds_1_4", "c02_e_ds_4_0", "c02_e_s_4", "c02_e_s_2", "c02_e_s_6",
+             "c02_p_stop", "c02_p_di", "c02_p_jmp", "c02_p_jr", "c02_p_jzc", "c02_p_call", "c02_p_dec", "c02_p_dec_inc", "c02_p_dec_const",
+             "c02_d_org", "c02_d_byte", "c02_d_stacksize", "c02_d_programsize", "c02_e_mov_0_0", "c02_e_mov_3_5", "c02_e_ds_1_4", "c02_e_ds_4_0", "c02_e_s_4",
              "c02_field_encoders", "c02_canary"]
+
+
+def _c02_heavy(h):
+    """operand-shape pairs that carry a constant / label / absolute address or an (R) source: they verify,
+    but need several GB each and are sensitive to machine load -> thorough tier only"""
+    import re
+    m = re.match(r"c02_e_(?:mov|ds)_(\d)_(\d)$", h)
+    if m:
+        return int(m.group(1)) in (2, 5) or int(m.group(2)) in (1, 2, 3, 6, 7)
+    m = re.match(r"c02_e_s_(\d)$", h)
+    return bool(m) and int(m.group(1)) in (1, 2, 3, 6, 7)
 
 
 def _select_c02(allh, tier, seed):
@@ -308,7 +319,7 @@ def _select_c02(allh, tier, seed):
         return allh
     import random
     core = [h for h in allh if h in C02_QUICK]
-    rest = [h for h in allh if h not in C02_QUICK]
+    rest = [h for h in allh if h not in C02_QUICK and not _c02_heavy(h) and h not in ("c02_p_dec_const", "c02_p_dec_abs")]
     random.Random(seed).shuffle(rest)
     return core + rest[:6]
 
